@@ -183,6 +183,10 @@ func run(p *program, st *stats) (fs []finding) {
 				lo, hi := join(pre, o.Start), c.fullEnd
 				c.delsInScan = delsIn(func(k []byte) bool { return bytes.Compare(k, lo) >= 0 && bytes.Compare(k, hi) <= 0 })
 				pk, pm = guard(func() { got = fromDB(v.impl.Range(o.Start, o.End, o.Limit, o.Rev)) })
+				c.unlimited = func() (u []kvmodel.KV) {
+					guard(func() { u = fromDB(v.impl.Range(o.Start, o.End, -1, o.Rev)) })
+					return u
+				}
 				what = "Range through a view differs from the same range on the database with the staged writes applied"
 				if o.Rev {
 					if allFF(c.fullEnd) {
@@ -204,6 +208,10 @@ func run(p *program, st *stats) (fs []finding) {
 				fp := join(pre, o.Key)
 				c.delsInScan = delsIn(func(k []byte) bool { return bytes.HasPrefix(k, fp) })
 				pk, pm = guard(func() { got = fromDB(v.impl.Iterate(o.Key, o.Limit, o.Rev)) })
+				c.unlimited = func() (u []kvmodel.KV) {
+					guard(func() { u = fromDB(v.impl.Iterate(o.Key, -1, o.Rev)) })
+					return u
+				}
 				what = "Iterate through a view differs from the same prefix scan on the database with the staged writes applied"
 				if len(pre) > 0 && len(c.full) > 0 {
 					st.feat("iterate-prefixed-view-nonempty")
